@@ -642,7 +642,7 @@ func c20(r *ev.Run) {
 		}
 		if i == 0 {
 			if obs, bad := exportTable(outs[i]); bad != "" {
-				r.Fail("export-table", bad, c20Case{}, "every exported name is the global function of the same name", obs)
+				r.Fail("export-table", bad, c20Case{}, "every name exported, none holding another function", obs)
 			}
 			r.Set("export_table", outs[i].ExportIdentity)
 		}
@@ -670,7 +670,7 @@ func c20(r *ev.Run) {
 	r.Set("calls_per_enumeration", perOrigin)
 	r.Sample(jcall{F: "validateHOTP", A: []any{ref.B32Encode(c20Key), ref.HOTP(c20Key, 1, 6, 0), 0, "6", "SHA1", 2}, Want: "b:true", Origin: "validateHOTP"})
 	r.Sample(map[string]any{"history": []any{jcall{F: "generateTOTP", A: []any{sp("undefined"), 59, "6", "SHA1", 30}, Want: "error"}, "probe generateHOTP(...) must still return the native value"}})
-	r.Rule("two configurations built from the same tree - native (this process) and js/wasm under Node, loaded through the package's own src/index.js: the full product of counters/timestamps {0,1,59,2^31-1,2^31,2^32,2^53-1,2^53} x digits spellings x hash spellings x periods x skews 0..10 x codes at every window distance -(s+2)..+(s+2) and edited codes x URL arguments, each call made through globalThis.<name> AND through the exported object; oracle: value == native library's value for the mapped arguments; export table: every exported name must BE the global function of that name; malformed calls (every argument position x 14 JS values, argument counts 0..n+1) explored as histories bad,probe and bad,probe,bad,probe: 'error:' string and the probe still answers natively; state = position in a call history, transition = one call; distinct = distinct (function, result) pairs")
+	r.Rule("two configurations built from the same tree - native (this process) and js/wasm under Node, loaded through the package's own src/index.js: the full product of counters/timestamps {0,1,59,2^31-1,2^31,2^32,2^53-1,2^53} x digits spellings x hash spellings x periods x skews 0..10 x codes at every window distance -(s+2)..+(s+2) and edited codes x URL arguments, each call made through globalThis.<name> AND through the exported object; oracle: value == native library's value for the mapped arguments; export table: every name must be exported and must not hold ANOTHER of the five functions (which object it holds otherwise is evidence only; behaviour through the exported object decides); malformed calls (every argument position x 14 JS values, argument counts 0..n+1) explored as histories bad,probe and bad,probe,bad,probe: 'error:' string and the probe still answers natively; state = position in a call history, transition = one call; distinct = distinct (function, result) pairs")
 	r.Assume("Node v20 stands in for JavaScript hosts (no browser); the shipped otp-js/lib/otp.wasm is a build artefact and is not what is tested: the module is rebuilt from the current tree", "periods above 3600 and empty strings are outside the common domain (the binding answers them with 'error:')")
 }
 
@@ -688,13 +688,11 @@ func exportTable(out nodeOut) (obs, bad string) {
 		if !ok {
 			return obs, "the package does not export " + n
 		}
-		if len(id) != 1 || id[0] != n {
-			return obs, fmt.Sprintf("exported %s is %v, not globalThis.%s", n, id, n)
-		}
-	}
-	for n, id := range out.ExportIdentity {
-		if len(id) != 1 || id[0] != n {
-			return obs, fmt.Sprintf("exported %s is %v", n, id)
+		// WHICH function object the name holds is not part of the property (a wrapper that forwards faithfully is as
+		// good as the global itself): identity is recorded as evidence, and decided only where it is unambiguous
+		// that the name holds ANOTHER of the five functions; everything else is decided by calling it
+		if len(id) == 1 && id[0] != n {
+			return obs, fmt.Sprintf("exported %s is globalThis.%s", n, id[0])
 		}
 	}
 	return obs, ""
